@@ -24,7 +24,7 @@ for pid in props:
         evidence_file='evidence/%s.json' % pid,
         replay_cmd_template='./verif replay {path}',
         engine='shsm-static',
-        level_claimed=dict(category='other', text=m.LEVEL_TEXT, design_ref='DESIGN.md §3 ' + pid),
+        level_claimed=dict(category='other', text=m.LEVEL_TEXT, design_ref='DESIGN.md Part I §I.2 row %s (what is claimed) and Part II §3 %s (reasoning)' % (pid, pid)),
         level_note=m.LEVEL_NOTE,
         technique=m.TECHNIQUE,
     ))
